@@ -405,6 +405,64 @@ class Check(common.Check):
                               'x0': fnum(rng.choice([1, 2, 0.5, 3]), False), 'args': [left, right]})
         return cases
 
+    def sweep_mappers(self, rng):
+        """Range mappers (every method of the operator table that takes a `clip` argument) through the
+        METHOD entry and the FUNCTION entry, with every clip value ('minmax', 'min', 'max', None) and
+        inputs below, inside and above [inmin, inmax]."""
+        ops = [o for o in (self.index.get('ops') or []) if 'clip' in o['params'] and o['hook'] == '_compose_narop']
+        cases = []
+        for row in ops:
+            for clip in (['num', 's:minmax'], ['num', 's:min'], ['num', 's:max'], ['none']):
+                for kind in ('fn', 'strm', 'pat', 'opnd'):
+                    lo, hi = rng.choice([(1.0, 4.0), (2.0, 8.0), (0.5, 2.0)])
+                    olo, ohi = rng.choice([(2.0, 16.0), (1.0, 8.0), (4.0, 1.0)])
+                    xs = [lo / 2, (lo + hi) / 2, hi * 2]
+                    x = rng.choice(xs)
+                    rest = []
+                    for p_ in row['params']:
+                        if p_ == 'clip':
+                            rest.append(clip)
+                        elif p_ == 'inmin':
+                            rest.append(['num', fnum(lo)])
+                        elif p_ == 'inmax':
+                            rest.append(['num', fnum(hi)])
+                        elif p_ == 'outmin':
+                            rest.append(['num', fnum(olo)])
+                        elif p_ == 'outmax':
+                            rest.append(['num', fnum(ohi)])
+                        elif p_ == 'incenter':
+                            rest.append(['num', fnum((lo + hi) / 2)])
+                        elif p_ == 'outcenter':
+                            rest.append(['num', fnum((olo + ohi) / 2)])
+                        elif p_ == 'curve':
+                            rest.append(['num', fnum(rng.choice([-4, 2, -1.5]))])
+                        else:
+                            rest.append(['num', fnum(1.0)])
+                    first = {'fn': ['fnn', 'i:1', 'f:0'], 'opnd': ['opnd', ['num', fnum(x)]],
+                             'strm': ['strm', [['num', fnum(v)] for v in xs]],
+                             'pat': ['pat', [['num', fnum(v)] for v in xs]]}[kind]
+                    base = {'name': row['method'], 'ns': row['ns'], 'sel': row['sel'], 'numeric': True,
+                            'x0': fnum(x), 'args': [first] + rest,
+                            'mapper': {'xs': [fnum(x)] if kind in ('fn', 'opnd') else [fnum(v) for v in xs],
+                                       'lo': fnum(lo), 'hi': fnum(hi), 'olo': fnum(olo), 'ohi': fnum(ohi),
+                                       'clip': clip[1][2:] if clip[0] == 'num' else None}}
+                    cases.append(dict(base, via='meth', hook='_compose_narop'))
+                    cases.append(dict(base, via='bi', kind='narop'))
+        return cases
+
+    @staticmethod
+    def mapper_reference(name, x, lo, hi, olo, ohi, clip):
+        """linlin / linexp as documented (sclang SimpleNumber.linlin / linexp), written independently."""
+        if clip in ('minmax', 'min') and x <= lo:
+            return olo
+        if clip in ('minmax', 'max') and x >= hi:
+            return ohi
+        if name == 'linlin':
+            return (x - lo) / (hi - lo) * (ohi - olo) + olo
+        if name == 'linexp':
+            return (ohi / olo) ** ((x - lo) / (hi - lo)) * olo
+        return None
+
     def gen_lift_numeric(self, rng):
         ops = self.index.get('ops') or []
         kinds = self.index.get('builtin_kinds') or {}
@@ -442,7 +500,7 @@ class Check(common.Check):
         if not getattr(self, 'index', None):
             err, res = py2lean.generate('C15', str(common.REPO), write=False)
             self.index = res['index'] if res else py2lean.c15_index_tolerant(str(common.REPO))
-        cases = self.sweep_builtin_reflected(rng)
+        cases = self.sweep_builtin_reflected(rng) + self.sweep_mappers(rng)
         for _ in range(n):
             r = rng.random()
             if r < 0.55:
@@ -526,6 +584,19 @@ class Check(common.Check):
         if case.get('numeric'):
             lf, dr = out.get('lifted'), out.get('direct')
             both_raise = isinstance(lf, str) and isinstance(dr, str) and lf[:2] == dr[:2] == 'E:'
+            mp = case.get('mapper')
+            if mp and case.get('sel') in ('linlin', 'linexp') and not (isinstance(lf, str) and lf[:2] == 'E:') \
+                    and not (isinstance(lf, list) and lf and str(lf[0]).endswith('-differs')):
+                vals = [x for x in (lf[1:] if isinstance(lf, list) else [lf]) if x != 'stop']
+                for xs_, got in zip(mp['xs'], vals):
+                    ref = self.mapper_reference(case['sel'], float(val(xs_)), float(val(mp['lo'])), float(val(mp['hi'])),
+                                                float(val(mp['olo'])), float(val(mp['ohi'])), mp['clip'])
+                    g = val(got) if isinstance(got, str) else None
+                    if g is None or abs(float(g) - ref) > 1e-9 * max(1.0, abs(ref)):
+                        return {'what': f"{case['via']} {case['name']}(x={float(val(xs_))}, {float(val(mp['lo']))}, "
+                                        f"{float(val(mp['hi']))}, {float(val(mp['olo']))}, {float(val(mp['ohi']))}, "
+                                        f"clip={mp['clip']!r}) evaluates to {got}, the documented mapping gives {ref}",
+                                'signature': f"lift:{case['via']}:mapper"}
             if lf != dr and not both_raise:     # which exception comes first depends on evaluation order
                 sel = case.get('sel')
                 kinds = '/'.join(a[0] for a in case['args'])
